@@ -39,7 +39,18 @@ Inductive beh :=
 | BRaise (e : string)                    (* raises *)
 | BGen (k : nat) (fin : option string)   (* generator function: yields k tokens, then stops / raises *)
 | BTuple (k : nat)                       (* returns a tuple of k tokens *)
-| BGenLen.                               (* parametrised generator: one token per positional argument *)
+| BGenLen                                (* parametrised generator: one token per positional argument *)
+| BObj (kd : ikind) (k : nat) (fin : option string)
+                                         (* returns an object of kind kd (a list, a dict, iter(list), map, islice,
+                                            an instance of a class with __next__ ...) that holds k tokens; iterating
+                                            it yields them and then stops / raises *)
+| BObjL (kd : ikind) (ys : list (pval obj)) (fin : option string)
+                                         (* returns an object of kind kd whose iteration yields the given values: a
+                                            file-like object and its lines (str), a generator that yields None, '', 0,
+                                            containers of the pool ... *)
+| BVal (v : pval obj) (ys : option (list (pval obj))).
+                                         (* returns the literal v (None, a str, a pool object); ys: what iterating
+                                            v yields (None = not iterable; a str yields its characters) *)
 
 Fixpoint nlookup {A} (k : N) (l : list (N * A)) : option A :=
   match l with
@@ -54,9 +65,13 @@ Definition c_call (behs : list (N * beh)) (f : N) (args : list cval) (kwargs : l
   | None => CRaise "model:unknown-callable"
   | Some BRet => CRet (PObj (ORet f)) NotIter
   | Some (BRaise e) => CRaise e
-  | Some (BGen k fin) => CRet (PObj (ORet f)) (Iter true (yields_of f k) fin)
-  | Some (BTuple k) => CRet (PObj (ORet f)) (Iter false (yields_of f k) None)
-  | Some BGenLen => CRet (PObj (ORet f)) (Iter true (yields_of f (List.length args)) None)
+  | Some (BGen k fin) => CRet (PObj (ORet f)) (Iter KGenerator (yields_of f k) fin)
+  | Some (BTuple k) => CRet (PObj (ORet f)) (Iter KIterable (yields_of f k) None)
+  | Some BGenLen => CRet (PObj (ORet f)) (Iter KGenerator (yields_of f (List.length args)) None)
+  | Some (BObj kd k fin) => CRet (PObj (ORet f)) (Iter kd (yields_of f k) fin)
+  | Some (BObjL kd ys fin) => CRet (PObj (ORet f)) (Iter kd ys fin)
+  | Some (BVal v None) => CRet v NotIter
+  | Some (BVal v (Some ys)) => CRet v (Iter KIterable ys None)
   end.
 
 (* ------------------------------------------------------------------ equalities *)
